@@ -35,8 +35,9 @@ ASSUMPTIONS = [
     "an operation is clean-up iff a frame of Renderable.draw / Renderable._animate_ / BaseImage.draw.render / "
     "BaseImage._display_animated is executing inside a finally: or except: body at that moment (line ranges from "
     "the AST of the current tree); faults are only injected at the other operations",
-    "new-API subjects follow the documented extension contract (_handle_interrupted_draw_ writes CSI 0 m); the "
-    "'attributes reset' clause is asserted for KeyboardInterrupt in the new API and for every exception in the old",
+    "new-API subjects follow the documented extension contract: _handle_interrupted_draw_ writes CSI 0 m, and "
+    "for the subject whose output consists of string-type sequences (APC strings with a payload, like the graphics "
+    "protocols) it first ends a possibly open string, as the library's own graphics styles do",
     "'not swallowing output' is judged by writing a probe text after the call and finding it on the reference "
     "terminal's screen",
 ]
@@ -216,10 +217,10 @@ def build_subject(case, env, tmpdir, state):
         from term_image.renderable import FrameCount
 
         from ..iterhist import build_padding
-        from ..subjects import SubjSGR
+        from ..subjects import SubjAPC, SubjSGR
 
         n = case["n"]
-        subj = SubjSGR(n, 5, case["size"], case["kind"])
+        subj = (SubjAPC if case["kind"] == "apc" else SubjSGR)(n, 5, case["size"], case["kind"])
         padding = build_padding(case["pad"])
 
         def call():
@@ -328,7 +329,7 @@ def run_once(case, env, tmpdir, state, fault, res, buffered=False):
         row = "".join(c[0] for c in T.grid[T.r])
         if in_string or "TEXT" not in row:
             errs.append(("terminal-swallows-output", "after %s at op %d (%s, prefix %s): parser state %r, chunk pending %s, probe text %s" % (fault[3], idx, kind, fault[1], T.state, T.pending is not None, "displayed" if "TEXT" in row else "not displayed")))
-        if (ki or case["api"] == "old") and not sgr_ok:
+        if not sgr_ok:
             errs.append(("attributes-not-reset", "text attributes after the call: fg=%r bg=%r" % (T.fg, T.bg)))
         if env.tcgetattr() != attr_before:
             errs.append(("termios-not-restored", "terminal attributes differ after %s at op %d" % (fault[3], idx)))
@@ -472,7 +473,7 @@ def gen(rnd, persona):
             term=[cols, rows],
             n=rnd.choice([1, 2, 3]),
             size=[rnd.randint(1, 4), rnd.randint(1, 3)],
-            kind=rnd.choice(["text", "sgr", "sgr", "ech"]),
+            kind=rnd.choice(["text", "sgr", "sgr", "ech", "apc", "apc"]),
             pad=rnd.choice([dict(type="exact", dims=[0, 0, 0, 0], fill=" "), dict(type="aligned", width=6, height=4, h=1, v=1, fill=" "), dict(type="exact", dims=[1, 1, 1, 1], fill="")]),
             loops=rnd.choice([1, 2]),
             cache=rnd.choice([False, True]),
